@@ -235,7 +235,7 @@ Inductive stop := Stop (tag : nat) (name : nat) (locked : bool) | Stuck.
 Definition stop_of (s : st) (t : nat) : stop :=
   let lk := match lock s with Some _ => true | None => false end in
   match thr s t with
-  | PIdle => Stop 7 0 lk
+  | PIdle => Stop 7 0 false
   | PEnter => Stop 0 0 lk
   | PRead _ => Stuck
   | PSlow => Stop 1 0 lk
@@ -243,7 +243,7 @@ Definition stop_of (s : st) (t : nat) : stop :=
   | PScan (nm :: _) _ => Stop 3 nm lk
   | PCall nm _ _ _ _ _ => Stop 4 nm lk
   | PScan [] _ => Stop 5 0 lk
-  | PDone ok => Stop 6 (if ok then 1 else 0) lk
+  | PDone ok => Stop 6 (if ok then 1 else 0) false
   end.
 
 Fixpoint to_stop (c : cfg) (w : world) (fuel t : nat) (s : st) : st :=
